@@ -247,14 +247,21 @@ func unmarshalData(data []byte) (map[string]any, error) {
 }
 
 // decode decodes the configuration map into a configDefinition.
-func decode(cm map[string]any) (*definition, error) {
+func decode(cm map[string]any) (_ *definition, err error) {
+	// mapstructure panics on some malformed inputs (e.g. a non-string key
+	// where a struct is expected): report those as a decode error.
+	defer func() {
+		if r := recover(); r != nil {
+			err = fmt.Errorf("invalid definition: %v", r)
+		}
+	}()
 	c := new(definition)
 	md, _ := mapstructure.NewDecoder(&mapstructure.DecoderConfig{
 		ErrorUnused: true,
 		Result:      c,
 		TagName:     "",
 	})
-	err := md.Decode(cm)
+	err = md.Decode(cm)
 
 	return c, err
 }
